@@ -15,6 +15,9 @@ pub uninterp spec fn fresh_runtime(globals: &dyn ObjectView, partials: Option<&d
 pub struct BuiltRuntime { pub id: Ghost<RtId>, pub regs: Registers }
 impl Runtime for BuiltRuntime {
     open spec fn ident(&self) -> RtId { self.id@ }
+    /// RuntimeBuilder::build yields a global layer over the caller's data over a counter layer (unit `stack`:
+    /// `builder_masks_the_unreachable_base_cases`)
+    open spec fn writable(&self) -> bool { true }
     #[verifier::external_body]
     fn registers(&self) -> (r: &Registers) { unimplemented!() }
 }
@@ -43,6 +46,7 @@ impl runtime::Template {
     #[verifier::external_body]
     pub fn render_to(&self, writer: &mut Sink, runtime: &dyn Runtime) -> (r: Result<()>)
         requires !old(writer).failed@,                                                      // [C10:no_write_after_failure]
+                 runtime.writable(),
         ensures renders_as_child(self.rid(), runtime.ident(), *old(writer), *final(writer), r)
     { unimplemented!() }
 }
